@@ -4,6 +4,7 @@ C15 - storage failures surface as query errors, never as partial results.
 import PromqlVerif.LTS.ConcurrentThms
 import PromqlVerif.Loader
 import PromqlVerif.Sem
+import PromqlVerif.Eng
 namespace PromqlVerif.C15
 open PromqlVerif Val
 
@@ -30,5 +31,63 @@ theorem error_propagates_through_agg {V : Type} [Val V] (c : Ctx V) (t : Int) (o
     (g : List String) (e : Expr V) (er : Err) (h : eval c t e = .error er) :
     eval c t (.agg op w g e) = .error er := by
   rw [eval]; simp [h, bind, Except.bind]
+
+/-! ### no operator of the engine turns a failing child step into a successful one
+
+The engine model's operators, one by one: if the operator a node is built on fails at a step, so
+does the node, with the same error - also through the step-invariant wrapper, which evaluates its
+child once, at the window start (a seeded change made exactly that wrapper swallow the error of
+its child; the fault oracle caught it, this is the statement it violated). -/
+
+theorem neg_step_error {V : Type} [Val V] (c : Ctx V) (e : Expr V) (o o' : OpSem V) (t : Int) (er : Err)
+    (h : engOp c (.neg e) = .ok o) (h' : engOp c e = .ok o') (hs : o'.step t = .error er) : o.step t = .error er := by
+  rw [engOp] at h
+  simp only [h', bind, Except.bind, pure, Except.pure, Except.ok.injEq] at h
+  subst h
+  simp [hs, Except.map]
+
+theorem stepInv_step_error {V : Type} [Val V] (c : Ctx V) (e : Expr V) (hn : ∀ v, e ≠ .num v) (o o' : OpSem V) (er : Err)
+    (h : engOp c (.stepInv e) = .ok o) (h' : engOp c e = .ok o') (hs : o'.step c.start = .error er) :
+    ∀ t, o.step t = .error er := by
+  intro t
+  rw [engOp] at h
+  · simp only [h', bind, Except.bind, pure, Except.pure, Except.ok.injEq] at h
+    subst h
+    exact hs
+  · intro v hv; exact hn v hv
+
+theorem agg_step_error {V : Type} [Val V] (op : String) (w : Bool) (g : List String) (param : Option (OpSem V))
+    (child : OpSem V) (t : Int) (er : Err) (hs : child.step t = .error er) :
+    (engAggregate op w g param child).step t = .error er := by
+  unfold engAggregate
+  split <;> simp [hs, bind, Except.bind]
+
+theorem agg_param_error {V : Type} [Val V] (op : String) (w : Bool) (g : List String) (po child : OpSem V)
+    (hnv : (!w && g.isEmpty && vectorizedAggs.contains op) = false)
+    (t : Int) (er : Err) (xs : IdVec V) (hc : child.step t = .ok xs) (hs : po.step t = .error er) :
+    (engAggregate op w g (some po) child).step t = .error er := by
+  unfold engAggregate
+  rw [if_neg (by rw [hnv]; exact Bool.false_ne_true)]
+  simp only [hc, scalarOf, hs, bind, Except.bind]
+
+theorem kagg_step_error {V : Type} [Val V] (top w : Bool) (g : List String) (po child : OpSem V) (t : Int) (er : Err)
+    (hs : child.step t = .error er) : (engKAggregate top w g po child).step t = .error er := by
+  unfold engKAggregate
+  simp [hs, bind, Except.bind]
+
+theorem vector_vector_step_error {V : Type} [Val V] (c : Ctx V) (op : String) (b : Bool) (m : Matching) (l r : Expr V)
+    (hls : l.isScalar = false) (hrs : r.isScalar = false) (o lo ro : OpSem V) (t : Int) (er : Err)
+    (h : engOp c (.bin op b m l r) = .ok o) (hl : engOp c l = .ok lo) (hr : engOp c r = .ok ro) :
+    (lo.step t = .error er → o.step t = .error er) ∧
+    (∀ xs, lo.step t = .ok xs → ro.step t = .error er → o.step t = .error er) := by
+  rw [engOp] at h
+  simp only [hl, hr, bind, Except.bind, pure, Except.pure, hls, hrs, Bool.or_self, Bool.false_eq_true, if_false] at h
+  split at h
+  · cases h
+  · simp only [Except.ok.injEq] at h
+    subst h
+    constructor
+    · intro hs; simp [hs]
+    · intro xs hx hs; simp [hx, hs]
 
 end PromqlVerif.C15
